@@ -21,7 +21,11 @@ func c09kwcross(c *core.Ctx, r *core.Reporter) {
 	const rule = "C09.kwcross"
 	r.Rule(rule, "a raising comparison that relates two fields both assigned inside one loop (two keyword values) stands after the loop, not inside it where it depends on the order of the keywords", 2)
 	an := lenflow.New(c)
-	type site struct{ key, pos string; ok bool; why string }
+	type site struct {
+		key, pos string
+		ok       bool
+		why      string
+	}
 	var sites []site
 	fieldLoad := func(v ssa.Value) (*ssa.FieldAddr, bool) {
 		for i := 0; i < 3; i++ {
